@@ -59,7 +59,7 @@ class TrimeshPolyhedron(Domain):
             )
         self.mesh.fix_normals()
         super().__init__(space, dim=3)
-        self.necessary_variables = {}
+        self.necessary_variables = set()
         self.tol = tol
         # Trimesh gives a warning when not enough points are sampled. We already
         # take care of this problem. So set the logging only to errors.
